@@ -412,6 +412,8 @@ class Histogram1D(ObjectWithBinning, HistogramBase):
     ) -> None:
         # TODO: Unify with HistogramBase
         values_array, array_mask = extract_1d_array(values, dropna=dropna)
+        if values_array.size == 0:
+            return  # Nothing to add (adaptive binnings may not even have a bin yet)
         if self._binning.is_adaptive():
             map = self._binning.force_bin_existence(values_array)
             self._reshape_data(self._binning.bin_count, map)
